@@ -19,7 +19,11 @@ KINDS = ["string", "bool", "int", "int8", "int16", "int32", "int64", "uint", "ui
 CK = {"string": "KString", "bool": "KBool", "int": "KInt", "int8": "KInt8", "int16": "KInt16", "int32": "KInt32",
       "int64": "KInt64", "uint": "KUint", "uint8": "KUint8", "uint16": "KUint16", "uint32": "KUint32",
       "uint64": "KUint64", "float32": "KFloat32", "float64": "KFloat64", "slice": "KOther", "map": "KOther",
-      "struct": "KOther", "ptr": "KOther", "iface": "KOther", "error": "KOther"}
+      "struct": "KOther", "ptr": "KOther", "iface": "KOther", "error": "KOther",
+      "Name": "(KNamed KString)", "Flag": "(KNamed KBool)", "Celsius": "(KNamed KFloat64)", "Level": "(KNamed KInt)",
+      "Small": "(KNamed KInt8)", "Ratio": "(KNamed KFloat32)"}
+NAMED = {"Name": "string", "Flag": "bool", "Celsius": "float64", "Level": "int", "Small": "int8", "Ratio": "float32"}
+GOTYPE = dict((("main." + n), n) for n in NAMED)       # reflect type string -> our name
 UNSUPPORTED = ["slice", "map", "struct", "ptr", "iface"]
 BOUNDS = {"int": (-2 ** 63, 2 ** 63 - 1), "int64": (-2 ** 63, 2 ** 63 - 1), "int8": (-128, 127), "int16": (-32768, 32767),
           "int32": (-2 ** 31, 2 ** 31 - 1), "uint": (0, 2 ** 64 - 1), "uint64": (0, 2 ** 64 - 1), "uint8": (0, 255),
@@ -97,16 +101,21 @@ def coq_sval(v):
     return None
 
 
-def coq_gval(kind, p):
-    """Go value of dynamic kind `kind` (reflect.Kind name) with payload p"""
-    if kind == "string":
-        return "(GStr %s)" % coq_text(text_of(p))
-    if kind == "bool":
-        return "(GBool %s)" % ("true" if p.get("b") else "false")
-    if kind in BOUNDS:
-        return "(GNum %s %s)" % (CK[kind], coq_z(int(p["i"])))
-    if kind in ("float32", "float64"):
-        return "(GFlt %s %s)" % (CK[kind], coq_float_bits(p["bits"]))
+def coq_gval(kind, p, tname=None):
+    """Go value of dynamic TYPE (a predeclared kind name, or one of the harness's defined types) with
+    payload p; tname = reflect's type string when observed (main.Name for a defined type)"""
+    if tname in GOTYPE:
+        kind = GOTYPE[tname]
+    t = CK.get(kind, "KOther")
+    base = NAMED.get(kind, kind)
+    if base == "string":
+        return "(GStr %s %s)" % (t, coq_text(text_of(p)))
+    if base == "bool":
+        return "(GBool %s %s)" % (t, "true" if p.get("b") else "false")
+    if base in BOUNDS:
+        return "(GNum %s %s)" % (t, coq_z(int(p.get("i") or "0")))
+    if base in ("float32", "float64"):
+        return "(GFlt %s %s)" % (t, coq_float_bits(p.get("bits") or "0"))
     return "GOth"
 
 
@@ -131,10 +140,49 @@ def coq_res(o):
     return "RPanic"
 
 
+def script_lit(v):
+    k = v["k"]
+    if k == "null":
+        return "null"
+    if k == "bool":
+        return "true" if v["b"] else "false"
+    if k == "int":
+        return v["i"] if int(v["i"]) > -2 ** 63 else None
+    if k == "float":
+        x = struct.unpack("<d", struct.pack("<Q", int(v["bits"])))[0]
+        if x != x or abs(x) == float("inf") or (x == 0 and int(v["bits"]) >> 63) or abs(x) >= 1e15 or (x != 0 and abs(x) < 1e-4):
+            return None
+        t = repr(x)
+        return t if "e" not in t else None
+    if k == "str":
+        s = v.get("s", "")
+        return "'%s'" % s if not any(ch in s for ch in "'\\$\n{") and not v.get("hex") else None
+    return None
+
+
+def sval_of_payload(kind, p):
+    """the script value a Go result of this kind/payload is expected to come back as"""
+    base = NAMED.get(kind, kind)
+    if base == "string":
+        return S(p.get("s") or "")
+    if base == "bool":
+        return B(bool(p.get("b")))
+    if base in BOUNDS:
+        return I(int(p["i"]))
+    x = struct.unpack("<d", struct.pack("<Q", int(p["bits"])))[0]
+    return F(x)
+
+
 def coq_case(c, o):
+    if c["k"] == "sfunc":
+        retv = "(Some %s)" % coq_gval(c["ret"], c["retv"])
+        got = coq_list(coq_gval(g["kind"], g["p"], g.get("type")) for g in (o.get("got") or []))
+        res = {"same": "(RVal %s)" % coq_sval(c["expect_v"]), "different": "(RVal SOther)", "throw": "RThrow"}.get(o["out"], "RPanic")
+        return "CCall %s %s %s %s %s %s" % (coq_list(CK[p] for p in c["params"]), coq_list(coq_sval(a) for a in c["args"]),
+                                            retv, coq_oracle(o["orc"]), got, res)
     if c["k"] == "generic":
         if o["out"] == "go":
-            ob = "(GGo %s)" % coq_gval(o["gv"]["kind"], o["gv"]["p"])
+            ob = "(GGo %s)" % coq_gval(o["gv"]["kind"], o["gv"]["p"], o["gv"].get("type"))
         elif o["out"] == "throw":
             ob = "GThrow"
         else:
@@ -145,7 +193,7 @@ def coq_case(c, o):
     else:
         params, ret = c["params"], c["ret"]
     retv = "None" if not ret else "(Some %s)" % coq_gval(ret, c.get("retv") or {})
-    got = coq_list(coq_gval(g["kind"], g["p"]) for g in (o.get("got") or []))
+    got = coq_list(coq_gval(g["kind"], g["p"], g.get("type")) for g in (o.get("got") or []))
     return "CCall %s %s %s %s %s %s" % (coq_list(CK[p] for p in params), coq_list(coq_sval(a) for a in c["args"]),
                                         retv, coq_oracle(o["orc"]), got, coq_res(o))
 
@@ -161,6 +209,12 @@ BIG = "x" * 65536
 
 
 def arg_pool(kind, rng):
+    if kind in NAMED:
+        return arg_pool(NAMED[kind], rng)
+    return arg_pool0(kind, rng)
+
+
+def arg_pool0(kind, rng):
     """script values aimed at a parameter of this kind: matching boundary values, values just
     outside the range, and values of other kinds"""
     if kind == "string":
@@ -182,6 +236,8 @@ def arg_pool(kind, rng):
 
 
 def ret_pool(kind):
+    if kind in NAMED:
+        return ret_pool(NAMED[kind])
     if kind == "":
         return [None]
     if kind == "string":
@@ -221,6 +277,37 @@ def gen_cases(ck):
                     args.append(pool[rng.randrange(len(pool))] if rng.random() < 0.35 else pool[rng.randrange(min(5, len(pool)))])
                 ret = rng.choice([""] + KINDS)
                 cases.append({"k": "func", "params": list(sig), "ret": ret, "retv": rng.choice(ret_pool(ret)), "args": args})
+    # DEFINED types (type Name string, Flag bool, Celsius float64, Level int, Small int8, Ratio float32):
+    # same kinds, different types — reflect.Call needs the exact type
+    for p in NAMED:
+        for a in arg_pool(p, rng):
+            for ret in ["", p, "int"]:
+                cases.append({"k": "func", "params": [p], "ret": ret, "retv": ret_pool(ret)[-1], "args": [a]})
+    for sig in itertools.product(list(NAMED) + ["int", "string"], repeat=2):
+        args = [rng.choice(arg_pool(p, rng)[:5]) for p in sig]
+        cases.append({"k": "func", "params": list(sig), "ret": rng.choice(list(NAMED)), "retv": None, "args": args})
+    # too few and too many arguments: a missing argument is a null slot, surplus arguments are ignored
+    for p in KINDS:
+        cases.append({"k": "func", "params": [p], "ret": "", "retv": None, "args": []})
+        cases.append({"k": "func", "params": [p, "int"], "ret": "", "retv": None, "args": [arg_pool(p, rng)[0]]})
+        cases.append({"k": "func", "params": [p], "ret": "", "retv": None, "args": [arg_pool(p, rng)[0], I(9), S("extra")]})
+    cases.append({"k": "func", "params": [], "ret": "int", "retv": {"i": "1"}, "args": [I(1), I(2)]})
+    # the call written as SCRIPT text `c17_ok(f(<literals>) === <literal>);` (lexer, parser, call node,
+    # strict identity of type and value on the script side)
+    for p in KINDS + list(NAMED):
+        for a in arg_pool(p, rng):
+            la = script_lit(a)
+            if la is None:
+                continue
+            for ret in ("int", "string", "bool", "float64", "int8", "uint16", "float32", "Name", "Level"):
+                rv = ret_pool(ret)[-1] if ret != "float64" else {"bits": fbits(2.5)}
+                if ret == "float32":
+                    rv = {"bits": fbits(1.5)}
+                ev = sval_of_payload(ret, rv)
+                le = script_lit(ev)
+                if le is None or rng.random() < 0.5:
+                    continue
+                cases.append({"k": "sfunc", "params": [p], "ret": ret, "retv": rv, "args": [a], "lits": [la], "expect": le, "expect_v": ev})
     # unsupported parameter / result kinds (struct, map, slice, pointer, interface): a catchable error /
     # some text, never a crash; mixed with supported parameters (the error must come before the call)
     for u in UNSUPPORTED:
@@ -289,7 +376,9 @@ def main(ck):
     order = sorted(bad.items(), key=lambda kv: len(json.dumps(cases[kv[0]])))
     for j, cls in order:
         c, o = cases[j], outs[j]
-        if c["k"] == "generic":
+        if c["k"] == "sfunc":
+            base = "script:(%s)->%s:args=%s" % (",".join(c["params"]), c["ret"], "-".join(a["k"] for a in c["args"]))
+        elif c["k"] == "generic":
             base = "generic:%s<-%s" % (c["t"], c["v"]["k"])
         elif c["k"] == "method":
             base = "method:%s:args=%s" % (c["m"], "-".join(a["k"] for a in c["args"]) or "none")
@@ -310,7 +399,7 @@ def main(ck):
     sigs = set()
     nontriv = set()
     for c in cases:
-        if c["k"] == "func":
+        if c["k"] in ("func", "sfunc"):
             sigs.add((tuple(c["params"]), c["ret"]))
             if c["params"]:
                 nontriv.add(json.dumps(c, sort_keys=True)[:300])
